@@ -42,6 +42,8 @@ type H struct {
 	maxNsByte float64
 	maxAlloc  uint64
 	maxRatio  float64 // alloc / allowance
+	maxCPU    float64 // CPU time / allowance
+	maxCPUOf  string
 	aborted   bool
 	known     int
 
@@ -244,7 +246,7 @@ func (h *H) triple(c *tcase, big bool) (outcome, bool) {
 	}
 	var o outcome
 	timedOut := func(r outcome) bool { return r.Class == "timeout" || r.Class == "hang" }
-	if c.Tight {
+	if c.Tight || c.Own {
 		// bodies built to cost time run in a process of their own from the start: nothing of
 		// ours runs beside them, and a run that exceeds its CPU allowance ends itself
 		rs := replayN(h.e.Dir, c, big, 1)
@@ -252,6 +254,10 @@ func (h *H) triple(c *tcase, big bool) (outcome, bool) {
 			return outcome{}, false
 		}
 		o = rs[0]
+		if os.Getenv("VERIF_C08_DEBUG") != "" {
+			fmt.Fprintf(os.Stderr, "c08 debug: own process: %s: %d raw bytes -> %s, %d out, cpu %.1f ms, wall %.1f ms, allowance %.1f ms\n",
+				c.Note, in, o.Class, o.N, float64(o.CPUNS)/1e6, float64(o.DurNS)/1e6, float64(allowFor(c)(in, o.N))/1e6)
+		}
 		if timedOut(o) {
 			if h.confirmN(c, big, 2, timedOut) {
 				h.fail("timeout", fmt.Sprintf("decoding %d bytes used %v of CPU time (wall %v) without finishing; the allowance is %v of CPU time (three fresh processes, one after the other, agree)",
@@ -292,6 +298,14 @@ func (h *H) judge(c *tcase, big bool, o outcome) (outcome, bool) {
 	}
 	if d := time.Duration(o.DurNS); d > h.maxDur {
 		h.maxDur = d
+	}
+	if o.CPUNS > 0 {
+		if r := float64(o.CPUNS) / float64(allowFor(c)(in, o.N)); r > h.maxCPU {
+			h.maxCPU, h.maxCPUOf = r, c.Note
+			if c.Note == "" {
+				h.maxCPUOf = strings.Join(c.Names, " ")
+			}
+		}
 	}
 	if in+o.N > 1<<16 {
 		if v := float64(o.DurNS) / float64(in+o.N); v > h.maxNsByte {
@@ -1567,6 +1581,8 @@ func main() {
 				"max_ns_per_byte":         h.maxNsByte,
 				"max_total_alloc":         h.maxAlloc,
 				"max_alloc_over_allowed":  h.maxRatio,
+				"max_cpu_over_allowed":    h.maxCPU,
+				"max_cpu_over_allowed_by": h.maxCPUOf,
 				"watchdog":                "CPU time (user+system of the decoding process), 5 s + 50 us per input or output byte; wall-clock only as a hang guard (90 s without output and without CPU use); a suspected violation is re-run three times in fresh processes, one after the other, each judged by its own CPU time",
 				"alloc_allowance":         "StreamBudget(rawLen) + 4*|out| + 512 KiB + 128 KiB*stages, against the TotalAlloc delta",
 				"goroutine_grace":         "2 s after Close",
@@ -1575,7 +1591,8 @@ func main() {
 				"header_sweep":            h.sweep,
 				"max_live_heap_growth":    h.maxLive,
 				"live_heap_allowance":     "StreamBudget(rawLen) + 1 MiB, against HeapAlloc after forced collections sampled every 2 ms during the decode (multi-segment JBIG2 cases)",
-				"tight_watchdog":          "0.75 s + 5 us per byte of CPU time for bodies built to cost time (CCITT code storms, progressive scan scripts, JBIG2 region storms); they run in a process of their own",
+				"tight_watchdog":          "0.75 s + 5 us per byte of CPU time for bodies built to cost time whose decoding is linear with a small constant (CCITT code storms, JBIG2 region storms; the unchanged tree needs < 0.1 s); they run in a process of their own",
+				"progressive_scan_scripts": "process of their own, general allowance (5 s + 50 us per byte): the decoder's own bound is 64 walks over up to 32768 + 4*rawLen coefficient blocks, about 0.3 s + 33 us per input byte; the scripts need 0.3 s to 1.1 s on the unchanged tree",
 				"failing_cases_by_signature (12 of each are recorded)": h.perSig,
 			},
 		})
